@@ -12,13 +12,14 @@ def run(ctx):
     from vlib import cliprop
     from props import cli_misc
     cliprop.run_space(ctx, "props.cli_misc", "c13", cli_misc.cases_io(ctx.thorough), chunk=16)
+    cliprop.run_space(ctx, "props.cli_misc", "c13", cli_misc.cases_c13_env(ctx.thorough), chunk=4)
     ctx.assumptions += ["step budget per API call: zero-progress source calls (source answered 0 / -1) <= 8 + bytes of output the call may still deliver; progress calls are bounded by the bytes present by construction; heap: allocator hooks (--wrap) track live bytes",
                         "a per-case CPU watchdog is the backstop behind the deterministic counters; FILE kinds count fread/fseek through --wrap"]
     return ctx.finish(
         rule="'kinds': the 7 generated archives cut at every offset x walks {list, read all, check all} x 5 stream kinds, with per-call zero-progress counters and live-heap tracking; "
              "'extreme': level-3 header length at every power of two +-1 up to 2^32-1 with and without bytes present, 4 GiB member sizes with 10 bytes of data, level-1 chains of maximal extended headers, 256 KiB +- 30 of header-less lead-in, "
              "'work': headers as large as the format allows (1 MiB level 3, 64 KiB level 1/2) with every byte present, 11 families of name/path content (all upper case, separators only, '../' repeated, one-letter components, ...) x 5 OS types x {name header, path header, both} x 3 stream kinds: CPU time of listing <= 1.5 s + 1 us per byte present (measured worst case in the notes); "
-             "every method with 0/2 bytes of input and declared lengths up to 4 MiB. Oracle: every call returns within the budget, output <= declared, peak live heap <= 8 MiB + 2*len(input). non-trivial = distinct (archive, cut, walk) / extreme shapes",
+             "every method with 0/2 bytes of input and declared lengths up to 4 MiB. CLI: every cut of three archives through file/stdin-file/stdin-pipe, standard output full or closed, 12 standard-input contents (incl. empty and junk) at an overwrite prompt x 5 command words x file/pipe, directories (empty and not) at 1..3 output paths x 6 command words: every command returns. Oracle: every call returns within the budget, output <= declared, peak live heap <= 8 MiB + 2*len(input). non-trivial = distinct (archive, cut, walk) / extreme shapes",
         replay_fn=lambda rep: (cliprop.replay_case(rep) if rep.get('kind') == 'cli' else runner.replay_explorer(rep, quiet=True)))
 
 
